@@ -112,6 +112,16 @@ pub fn mutate_lines(rng: &mut Rng, s: &str, edits: usize, pool: usize) -> String
 /// few single-symbol edits that prefer run boundaries (one more / one fewer repetition, a foreign
 /// symbol in front of a run).
 pub fn runny_pair(rng: &mut Rng) -> (String, String) {
+    runny_pair_from(rng, false)
+}
+
+/// the same with whole lines as symbols
+pub fn runny_line_pair(rng: &mut Rng) -> (String, String) {
+    runny_pair_from(rng, true)
+}
+
+fn runny_pair_from(rng: &mut Rng, lines: bool) -> (String, String) {
+    let line_alphabets: [&[&str]; 4] = [&["a\n", "\n"], &["x\n", "y\n", "\n"], &["a b\n", "a c\n", "\r\n"], &["}\n", "\n", "fn f() {\n"]];
     let alphabets: [&[&str]; 7] = [
         &["a", "b"],
         &["a ", "b "],
@@ -121,7 +131,7 @@ pub fn runny_pair(rng: &mut Rng) -> (String, String) {
         &["a ", "\n", "b\r\n"],
         &["\u{e9}", " ", "a"],
     ];
-    let al = alphabets[rng.below(alphabets.len())];
+    let al = if lines { line_alphabets[rng.below(line_alphabets.len())] } else { alphabets[rng.below(alphabets.len())] };
     let lens = [1usize, 1, 1, 2, 3, 5, 17, 18, 24, 40];
     let target = rng.range(110, 300);
     let mut a: Vec<usize> = vec![];
